@@ -18,7 +18,7 @@ def run(run):
         "float64(a)/float64(b) of the exact CUME_DIST/PERCENT_RANK fraction is computed by the model's IEEE division (validated by C06's arith stream)",
     ]
     run.obligations_for(["Csvq.Props.C17"])
-    run.stream("c17", 2200 if q else 30000)
+    run.stream("c17", 3600 if q else 30000)
     if not q:
         for k in range(1, 4):
             run.stream("c17", 20000, seed_offset=k)
